@@ -50,7 +50,7 @@ Ops_DTop == {"acreate", "call", "adefer", "owndrop", "kill", "run", "dropstakker
 Ops_DBody == {"adefer"}
 Ops_DMeth == {"vdefer", "adefer", "stop", "fail"}
 \* Ret-focused: ret_to!/ret_some_to! Rets used, dropped, kept in actor state or carried by calls, against every lifecycle state
-Ops_RTop == {"acreate", "mkret", "ret", "retdrop", "call", "kill", "owndrop", "run"}
+Ops_RTop == {"acreate", "mkret", "ret", "retdrop", "call", "pcall", "kill", "owndrop", "run"}
 Ops_RBody == {"ret", "retdrop"}
 Ops_RMeth == {"stop", "ret", "retdrop", "keepret"}
 \* Fwd-focused: fwd_to! Fwds used against every lifecycle state of the target, mixed with ordinary calls
